@@ -1,12 +1,627 @@
-//! C14 — not built yet.
-use crate::runner::{Outcome, Summary};
-use crate::Ctx;
-use serde_json::Value;
+//! C14 — standard gate unitaries match the Quil specification (module Unitary).
+//! Shared code of the group C14 / C15 lives here.
+//!
+//! replay (spec -> code), cases of spec/mc/MC_Unitary.tla and spec/mc/MC_UnitaryLift.tla:
+//!   kind "gate": {n, gate:{name, mods, qubits, np}, entries:[[r, c, {s, p}]]} — the sparse SYMBOLIC
+//!       matrix the specification expects.  The symbols are evaluated in f64 for five parameter
+//!       assignments and compared entry-wise with `Gate::to_unitary(n)` and with
+//!       `Program::to_unitary(n)` of the one-gate program.
+//!   kind "lift": {n, qubits, sub:[index map], steps, arr} — a placement explored by the model of the
+//!       lifting algorithm.  Probe gates of that arity are lifted by the real code to (qubits, n) and
+//!       compared with the same gate on (k-1 .. 0, k) moved through the specification's index map
+//!       (a relation between two runs of the code, stated by the specification).
+//! drive (code -> spec): seeded random gates on registers larger than the exhaustive bound; the real
+//!   matrix is abstracted back to symbols (numeric value -> unique symbol of the vocabulary for
+//!   generic parameters) and TLC validates it against spec/trace/UnitaryTrace.tla.
 
-pub fn replay(_ctx: &Ctx, _case: &Value) -> Outcome {
-    panic!("C14: replay not implemented")
+use crate::runner::{Outcome, Summary, Violation};
+use crate::util::{self, arr, s, u};
+use crate::Ctx;
+use ndarray::Array2;
+use num_complex::Complex64;
+use quil_rs::expression::Expression;
+use quil_rs::instruction::{Gate, GateModifier, Instruction, Qubit};
+use quil_rs::quil::Quil;
+use quil_rs::Program;
+use rand::Rng;
+use serde_json::{json, Value};
+use std::f64::consts::{FRAC_1_SQRT_2, FRAC_PI_4, PI};
+
+pub type Mat = Array2<Complex64>;
+
+pub const GATES: &[(&str, usize, usize)] = &[
+    ("I", 1, 0), ("X", 1, 0), ("Y", 1, 0), ("Z", 1, 0), ("H", 1, 0), ("S", 1, 0), ("T", 1, 0),
+    ("CNOT", 2, 0), ("CCNOT", 3, 0), ("CZ", 2, 0), ("SWAP", 2, 0), ("CSWAP", 3, 0), ("ISWAP", 2, 0),
+    ("RX", 1, 1), ("RY", 1, 1), ("RZ", 1, 1), ("PHASE", 1, 1), ("CPHASE", 2, 1), ("CPHASE00", 2, 1),
+    ("CPHASE01", 2, 1), ("CPHASE10", 2, 1), ("PSWAP", 2, 1),
+];
+
+#[allow(dead_code)]
+pub fn arity(name: &str) -> usize {
+    GATES.iter().find(|g| g.0 == name).map(|g| g.1).unwrap_or_else(|| panic!("not a standard gate: {name}"))
+}
+pub fn base_params(name: &str) -> usize {
+    GATES.iter().find(|g| g.0 == name).map(|g| g.2).unwrap_or_else(|| panic!("not a standard gate: {name}"))
 }
 
-pub fn drive(_ctx: &Ctx) -> Summary {
-    panic!("C14: drive not implemented")
+// ------------------------------------------------------------------------------- gate description
+
+/// A gate value in the vocabulary of the specification (Unitary!GateRec).
+#[derive(Clone, Debug, PartialEq)]
+pub struct GateCase {
+    pub name: String,
+    pub mods: Vec<String>, // first = outermost
+    pub qubits: Vec<u64>,
+    pub np: usize,
+}
+
+impl GateCase {
+    pub fn from_json(v: &Value) -> GateCase {
+        GateCase {
+            name: s(v, "name"),
+            mods: arr(v, "mods").iter().map(|m| m.as_str().expect("modifier").to_string()).collect(),
+            qubits: arr(v, "qubits").iter().map(|q| q.as_u64().expect("qubit")).collect(),
+            np: u(v, "np") as usize,
+        }
+    }
+    pub fn to_json(&self) -> Value {
+        json!({"name": self.name, "mods": self.mods, "qubits": self.qubits, "np": self.np})
+    }
+    pub fn from_gate(g: &Gate) -> GateCase {
+        GateCase {
+            name: g.name.clone(),
+            mods: g.modifiers.iter().map(|m| modifier_name(*m).to_string()).collect(),
+            qubits: g.qubits.iter().map(|q| match q { Qubit::Fixed(i) => *i, other => panic!("qubit {other:?}") }).collect(),
+            np: g.parameters.len(),
+        }
+    }
+    pub fn text(&self) -> String {
+        format!("{} {}({}) {:?}", self.mods.join(" "), self.name, self.np, self.qubits)
+    }
+}
+
+pub fn modifier_name(m: GateModifier) -> &'static str {
+    match m {
+        GateModifier::Controlled => "CONTROLLED",
+        GateModifier::Dagger => "DAGGER",
+        GateModifier::Forked => "FORKED",
+    }
+}
+pub fn modifier_of(name: &str) -> GateModifier {
+    match name {
+        "CONTROLLED" => GateModifier::Controlled,
+        "DAGGER" => GateModifier::Dagger,
+        "FORKED" => GateModifier::Forked,
+        other => panic!("unknown modifier {other}"),
+    }
+}
+
+fn num(x: f64) -> Expression {
+    Expression::Number(Complex64::new(x, 0.0))
+}
+
+/// `Gate::new` with the whole modifier list (thetas[k-1] is the value of theta_k).
+pub fn build_direct(gc: &GateCase, thetas: &[f64]) -> Gate {
+    Gate::new(
+        &gc.name,
+        thetas[..gc.np].iter().map(|t| num(*t)).collect(),
+        gc.qubits.iter().map(|q| Qubit::Fixed(*q)).collect(),
+        gc.mods.iter().map(|m| modifier_of(m)).collect(),
+    )
+    .expect("Gate::new")
+}
+
+/// The same gate built inside-out through the public builder calls `dagger`, `controlled`, `forked`.
+pub fn build_by_builder(gc: &GateCase, thetas: &[f64]) -> Gate {
+    let extra = gc.mods.iter().filter(|m| *m != "DAGGER").count();
+    let base_np = base_params(&gc.name);
+    let mut g = Gate::new(
+        &gc.name,
+        thetas[..base_np].iter().map(|t| num(*t)).collect(),
+        gc.qubits[extra..].iter().map(|q| Qubit::Fixed(*q)).collect(),
+        vec![],
+    )
+    .expect("Gate::new");
+    let mut next_q = extra;
+    for m in gc.mods.iter().rev() {
+        match m.as_str() {
+            "DAGGER" => g = g.dagger(),
+            "CONTROLLED" => {
+                next_q -= 1;
+                g = g.controlled(Qubit::Fixed(gc.qubits[next_q]));
+            }
+            "FORKED" => {
+                next_q -= 1;
+                let have = g.parameters.len();
+                let alt = thetas[have..2 * have].iter().map(|t| num(*t)).collect();
+                g = g.forked(Qubit::Fixed(gc.qubits[next_q]), alt).expect("Gate::forked");
+            }
+            other => panic!("unknown modifier {other}"),
+        }
+    }
+    g
+}
+
+pub fn real_gate_unitary(g: &Gate, n: u64) -> Result<Mat, String> {
+    let mut g = g.clone(); // to_unitary consumes the modifiers of the value it is called on
+    g.to_unitary(n).map_err(|e| format!("{e}"))
+}
+
+pub fn one_gate_program_unitary(g: &Gate, n: u64) -> Result<Mat, String> {
+    let mut p = Program::new();
+    p.add_instruction(Instruction::Gate(g.clone()));
+    p.to_unitary(n).map_err(|e| format!("{e}"))
+}
+
+// ------------------------------------------------------------------------------ symbols (f64 side)
+
+pub const CONST_SYMBOLS: &[&str] = &["1", "-1", "i", "-i", "h", "-h", "t", "t_conj"];
+pub const PARAM_SYMBOLS: &[&str] = &[
+    "cos_half", "-isin_half", "isin_half", "sin_half", "-sin_half", "cis", "cis_conj", "cis_half", "cis_half_conj",
+];
+
+/// Numeric value of a symbol of Unitary.tla (theta is the value of the symbol's parameter, if any).
+pub fn eval_symbol(name: &str, theta: f64) -> Complex64 {
+    let c = Complex64::new;
+    let h = theta / 2.0;
+    match name {
+        "0" => c(0.0, 0.0),
+        "1" => c(1.0, 0.0),
+        "-1" => c(-1.0, 0.0),
+        "i" => c(0.0, 1.0),
+        "-i" => c(0.0, -1.0),
+        "h" => c(FRAC_1_SQRT_2, 0.0),
+        "-h" => c(-FRAC_1_SQRT_2, 0.0),
+        "t" => Complex64::cis(FRAC_PI_4),
+        "t_conj" => Complex64::cis(-FRAC_PI_4),
+        "cos_half" => c(h.cos(), 0.0),
+        "sin_half" => c(h.sin(), 0.0),
+        "-sin_half" => c(-h.sin(), 0.0),
+        "-isin_half" => c(0.0, -h.sin()),
+        "isin_half" => c(0.0, h.sin()),
+        "cis" => Complex64::cis(theta),
+        "cis_conj" => Complex64::cis(-theta),
+        "cis_half" => Complex64::cis(h),
+        "cis_half_conj" => Complex64::cis(-h),
+        other => panic!("unknown symbol {other}"),
+    }
+}
+
+/// Dense numeric matrix of a sparse symbolic one ([[r, c, {s, p}]]).
+pub fn eval_entries(entries: &Value, dim: usize, thetas: &[f64]) -> Mat {
+    let mut m = Mat::zeros((dim, dim));
+    for e in entries.as_array().expect("entries") {
+        let r = e[0].as_u64().expect("row") as usize;
+        let c = e[1].as_u64().expect("col") as usize;
+        let sym = e[2]["s"].as_str().expect("symbol");
+        let p = e[2]["p"].as_u64().expect("param index") as usize;
+        let theta = if p == 0 { 0.0 } else { thetas[p - 1] };
+        m[[r, c]] = eval_symbol(sym, theta);
+    }
+    m
+}
+
+/// Largest entry-wise distance and where it is.
+pub fn max_diff(a: &Mat, b: &Mat) -> (f64, usize, usize) {
+    if a.shape() != b.shape() {
+        return (f64::INFINITY, 0, 0);
+    }
+    let mut best = (0.0, 0, 0);
+    for ((r, c), x) in a.indexed_iter() {
+        let d = (x - b[[r, c]]).norm();
+        if d > best.0 || d.is_nan() {
+            best = (if d.is_nan() { f64::INFINITY } else { d }, r, c);
+        }
+    }
+    best
+}
+
+pub fn adjoint(a: &Mat) -> Mat {
+    a.t().mapv(|c| c.conj())
+}
+
+pub fn unitarity_defect(a: &Mat) -> f64 {
+    let id = Mat::eye(a.shape()[0]);
+    max_diff(&a.dot(&adjoint(a)), &id).0
+}
+
+/// The parameter assignments of a case: two seeded generic ones and three with the special angles
+/// 0, pi, -pi/3 (DESIGN.md section 6, C14).  `key` makes the seeded values depend on the case.
+pub fn assignments(seed: u64, key: &str, np: usize) -> Vec<Vec<f64>> {
+    let m = np.max(1);
+    let mut r = util::rng(seed ^ crate::runner::hash_line(key), 14);
+    let g1: Vec<f64> = (0..m).map(|_| r.gen_range(-PI..PI)).collect();
+    let g2: Vec<f64> = (0..m).map(|_| r.gen_range(-2.0 * PI..2.0 * PI)).collect();
+    let a0: Vec<f64> = (0..m).map(|k| if k % 2 == 0 { 0.0 } else { PI }).collect();
+    let a1: Vec<f64> = (0..m).map(|k| if k % 2 == 0 { PI } else { -PI / 3.0 }).collect();
+    let a2: Vec<f64> = (0..m).map(|k| -PI / 3.0 * (k as f64 + 1.0)).collect();
+    if np == 0 {
+        vec![g1]
+    } else {
+        vec![g1, g2, a0, a1, a2]
+    }
+}
+
+// ---------------------------------------------------------- the property, evaluated in Rust (reference)
+//
+// Used only (i) to classify a difference between the real code and the model as violation (the real
+// matrix is not what the statement demands) or divergence (the model is off), and (ii) to judge a
+// recorded history when a trace-validation rejection is replayed.  Written from the Quil
+// specification, like the tables of Unitary.tla, but independently of them.
+
+fn reference_table(name: &str, theta: f64) -> Mat {
+    let z = Complex64::new(0.0, 0.0);
+    let o = Complex64::new(1.0, 0.0);
+    let i = Complex64::new(0.0, 1.0);
+    let diag = |d: &[Complex64]| {
+        let mut m = Mat::zeros((d.len(), d.len()));
+        for (k, x) in d.iter().enumerate() {
+            m[[k, k]] = *x;
+        }
+        m
+    };
+    let perm = |p: &[usize]| {
+        let mut m = Mat::zeros((p.len(), p.len()));
+        for (c, r) in p.iter().enumerate() {
+            m[[*r, c]] = o;
+        }
+        m
+    };
+    let (c, sn) = ((theta / 2.0).cos(), (theta / 2.0).sin());
+    let e = Complex64::from_polar(1.0, theta);
+    match name {
+        "I" => diag(&[o, o]),
+        "X" => perm(&[1, 0]),
+        "Y" => ndarray::array![[z, -i], [i, z]],
+        "Z" => diag(&[o, -o]),
+        "H" => ndarray::array![[o, o], [o, -o]].mapv(|x| x * FRAC_1_SQRT_2),
+        "S" => diag(&[o, i]),
+        "T" => diag(&[o, Complex64::from_polar(1.0, FRAC_PI_4)]),
+        "CNOT" => perm(&[0, 1, 3, 2]),
+        "CZ" => diag(&[o, o, o, -o]),
+        "SWAP" => perm(&[0, 2, 1, 3]),
+        "ISWAP" => {
+            let mut m = perm(&[0, 2, 1, 3]);
+            m[[1, 2]] = i;
+            m[[2, 1]] = i;
+            m
+        }
+        "CCNOT" => perm(&[0, 1, 2, 3, 4, 5, 7, 6]),
+        "CSWAP" => perm(&[0, 1, 2, 3, 4, 6, 5, 7]),
+        "RX" => ndarray::array![[o * c, -i * sn], [-i * sn, o * c]],
+        "RY" => ndarray::array![[o * c, -o * sn], [o * sn, o * c]],
+        "RZ" => diag(&[Complex64::from_polar(1.0, -theta / 2.0), Complex64::from_polar(1.0, theta / 2.0)]),
+        "PHASE" => diag(&[o, e]),
+        "CPHASE00" => diag(&[e, o, o, o]),
+        "CPHASE01" => diag(&[o, e, o, o]),
+        "CPHASE10" => diag(&[o, o, e, o]),
+        "CPHASE" => diag(&[o, o, o, e]),
+        "PSWAP" => {
+            let mut m = perm(&[0, 2, 1, 3]);
+            m[[1, 2]] = e;
+            m[[2, 1]] = e;
+            m
+        }
+        other => panic!("not a standard gate: {other}"),
+    }
+}
+
+fn block(m0: &Mat, m1: &Mat) -> Mat {
+    let d = m0.shape()[0];
+    let mut m = Mat::zeros((2 * d, 2 * d));
+    for r in 0..d {
+        for c in 0..d {
+            m[[r, c]] = m0[[r, c]];
+            m[[d + r, d + c]] = m1[[r, c]];
+        }
+    }
+    m
+}
+
+fn reference_local(name: &str, mods: &[String], thetas: &[f64]) -> Mat {
+    match mods.first().map(|m| m.as_str()) {
+        None => reference_table(name, thetas.first().copied().unwrap_or(0.0)),
+        Some("DAGGER") => adjoint(&reference_local(name, &mods[1..], thetas)),
+        Some("CONTROLLED") => {
+            let m = reference_local(name, &mods[1..], thetas);
+            block(&Mat::eye(m.shape()[0]), &m)
+        }
+        Some("FORKED") => {
+            let half = thetas.len() / 2;
+            block(&reference_local(name, &mods[1..], &thetas[..half]), &reference_local(name, &mods[1..], &thetas[half..]))
+        }
+        Some(other) => panic!("unknown modifier {other}"),
+    }
+}
+
+/// qubit 0 least significant in the register; first listed qubit most significant inside the gate
+pub fn reference_lift(local: &Mat, qubits: &[u64], n: u64) -> Mat {
+    let dim = 1usize << n;
+    let k = qubits.len();
+    let sub = |r: usize| qubits.iter().enumerate().fold(0usize, |acc, (j, q)| acc | (((r >> q) & 1) << (k - 1 - j)));
+    let mask: usize = qubits.iter().fold(0, |acc, q| acc | (1 << q));
+    let mut m = Mat::zeros((dim, dim));
+    for r in 0..dim {
+        for c in 0..dim {
+            if (r & !mask) == (c & !mask) {
+                m[[r, c]] = local[[sub(r), sub(c)]];
+            }
+        }
+    }
+    m
+}
+
+pub fn reference_unitary(gc: &GateCase, n: u64, thetas: &[f64]) -> Mat {
+    reference_lift(&reference_local(&gc.name, &gc.mods, &thetas[..gc.np]), &gc.qubits, n)
+}
+
+// ------------------------------------------------------------------------------------ comparisons
+
+/// Compare one real matrix with the model's expectation; classify a difference with the reference.
+pub fn judge(o: &mut Outcome, observable: &str, what: &str, real: &Result<Mat, String>, want: &Mat, reference: &Mat, tol: f64) {
+    match real {
+        Err(e) => {
+            o.violate(Violation::new(observable, json!("a matrix"), json!(format!("error: {e}"))).note(what.to_string()));
+        }
+        Ok(m) => {
+            let (d, r, c) = max_diff(m, want);
+            if d > tol {
+                let (dr, rr, rc) = max_diff(m, reference);
+                if dr > tol {
+                    o.violate(
+                        Violation::new(
+                            observable,
+                            json!(format!("entry [{r}][{c}] = {}", fmt_c(want.get((r, c)).copied()))),
+                            json!(format!("entry [{r}][{c}] = {}", fmt_c(m.get((r, c)).copied()))),
+                        )
+                        .note(format!("{what}: max entry-wise distance {d:.3e} from the specification's matrix (and {dr:.3e} at [{rr}][{rc}] from the harness reference)")),
+                    );
+                } else {
+                    o.diverge(format!("{what}: the model's matrix differs from the real one at [{r}][{c}] by {d:.3e} but the real one satisfies the reference tables"));
+                }
+            }
+        }
+    }
+}
+
+fn fmt_c(c: Option<Complex64>) -> String {
+    match c {
+        Some(c) => format!("{:.6}{:+.6}i", c.re, c.im),
+        None => "<out of range>".into(),
+    }
+}
+
+/// One "gate" case against the real code: direct construction, builder construction (must be the same
+/// value), `Gate::to_unitary`, `Program::to_unitary` of the one-gate program, unitarity.
+pub fn check_gate_case(ctx: &Ctx, o: &mut Outcome, case: &Value, tol: f64, observable: &str) {
+    let gc = GateCase::from_json(&case["gate"]);
+    let n = u(case, "n");
+    let dim = 1usize << n;
+    let key = format!("{}|{n}", gc.text());
+    let mut evals = 0;
+    for thetas in assignments(ctx.seed, &key, gc.np) {
+        let want = eval_entries(&case["entries"], dim, &thetas);
+        let reference = reference_unitary(&gc, n, &thetas);
+        let direct = build_direct(&gc, &thetas);
+        let built = build_by_builder(&gc, &thetas);
+        if built != direct {
+            o.violate(
+                Violation::new("builder", json!(direct.to_quil_or_debug()), json!(built.to_quil_or_debug()))
+                    .note("Gate::dagger/controlled/forked do not build the modifier list / qubits / parameters of the written gate"),
+            );
+        }
+        let what = format!("{} with thetas {:?} in {n} qubits", direct.to_quil_or_debug(), &thetas[..gc.np]);
+        let real = real_gate_unitary(&direct, n);
+        judge(o, observable, &format!("Gate::to_unitary of {what}"), &real, &want, &reference, tol);
+        let via_program = one_gate_program_unitary(&built, n);
+        judge(o, observable, &format!("Program::to_unitary of {what}"), &via_program, &want, &reference, tol);
+        if let Ok(m) = &real {
+            let defect = unitarity_defect(m);
+            if defect > 1e-10 {
+                o.violate(Violation::new("unitarity", json!("U U^dagger = Id"), json!(format!("defect {defect:.3e}"))).note(what.clone()));
+            }
+        }
+        evals += 1;
+    }
+    o.sub_evaluations += evals;
+}
+
+/// C14 §10: multi-qubit, or placed on a qubit other than 0, or n > arity
+fn nontrivial_c14(gc: &GateCase, n: u64) -> bool {
+    gc.qubits.len() > 1 || gc.qubits.iter().any(|q| *q != 0) || n as usize > gc.qubits.len()
+}
+
+/// probe gates of total arity k (name, modifiers): together they distinguish every index map
+fn probes(k: usize) -> Vec<(&'static str, Vec<&'static str>)> {
+    match k {
+        1 => vec![("RX", vec![]), ("H", vec![]), ("T", vec![])],
+        2 => vec![("CNOT", vec![]), ("CPHASE01", vec![]), ("CPHASE10", vec![]), ("PSWAP", vec![])],
+        3 => vec![("CCNOT", vec![]), ("CSWAP", vec![]), ("CPHASE01", vec!["CONTROLLED"]), ("CNOT", vec!["FORKED"])],
+        4 => vec![("CCNOT", vec!["CONTROLLED"]), ("CSWAP", vec!["CONTROLLED"]), ("CPHASE10", vec!["CONTROLLED", "CONTROLLED"])],
+        _ => vec![("CPHASE01", vec!["CONTROLLED", "CONTROLLED", "CONTROLLED"]), ("CSWAP", vec!["CONTROLLED", "CONTROLLED"])],
+    }
+}
+
+fn check_lift_case(ctx: &Ctx, o: &mut Outcome, case: &Value) {
+    let n = u(case, "n");
+    let qubits: Vec<u64> = arr(case, "qubits").iter().map(|q| q.as_u64().unwrap()).collect();
+    let sub: Vec<usize> = arr(case, "sub").iter().map(|x| x.as_u64().unwrap() as usize).collect();
+    let k = qubits.len();
+    let dim = 1usize << n;
+    let mask: usize = qubits.iter().fold(0, |acc, q| acc | (1 << q));
+    for (name, mods) in probes(k) {
+        let np = base_params(name) << mods.iter().filter(|m| **m == "FORKED").count();
+        let gc = GateCase { name: name.into(), mods: mods.iter().map(|m| m.to_string()).collect(), qubits: qubits.clone(), np };
+        let thetas = assignments(ctx.seed, &format!("lift|{}", gc.text()), np).remove(0);
+        // the same gate on qubits k-1 .. 0 of a k-qubit register: its matrix is the gate-local matrix
+        let compact = GateCase { qubits: (0..k as u64).rev().collect(), ..gc.clone() };
+        let local = match real_gate_unitary(&build_direct(&compact, &thetas), k as u64) {
+            Ok(m) => m,
+            Err(e) => {
+                o.violate(Violation::new("unitary", json!("a matrix"), json!(e)).note(compact.text()));
+                continue;
+            }
+        };
+        // moved through the specification's index map
+        let mut want = Mat::zeros((dim, dim));
+        for r in 0..dim {
+            for c in 0..dim {
+                if (r & !mask) == (c & !mask) {
+                    want[[r, c]] = local[[sub[r], sub[c]]];
+                }
+            }
+        }
+        let reference = reference_unitary(&gc, n, &thetas);
+        let real = real_gate_unitary(&build_direct(&gc, &thetas), n);
+        judge(o, "unitary", &format!("lifting of {} to {n} qubits", gc.text()), &real, &want, &reference, 1e-12);
+        o.sub_evaluations += 1;
+    }
+}
+
+pub fn replay(ctx: &Ctx, case: &Value) -> Outcome {
+    if let Some(h) = case.get("history") {
+        return replay_history(ctx, h);
+    }
+    match case["kind"].as_str() {
+        Some("gate") => {
+            let gc = GateCase::from_json(&case["gate"]);
+            let mut o = Outcome::ok(nontrivial_c14(&gc, u(case, "n")));
+            check_gate_case(ctx, &mut o, case, 1e-12, "unitary");
+            o
+        }
+        Some("lift") => {
+            let mut o = Outcome::ok(true);
+            check_lift_case(ctx, &mut o, case);
+            o
+        }
+        other => panic!("C14: unknown case kind {other:?}"),
+    }
+}
+
+// --------------------------------------------------------------------- abstraction: numbers -> symbols
+
+/// Parameter values for which every symbol of the vocabulary has a different value (so that a numeric
+/// entry determines its symbol).
+pub fn generic_thetas(r: &mut impl Rng, np: usize) -> Vec<f64> {
+    loop {
+        let thetas: Vec<f64> = (0..np).map(|_| r.gen_range(0.2..3.0) * if r.gen_bool(0.5) { 1.0 } else { -1.0 }).collect();
+        let mut vals: Vec<Complex64> = CONST_SYMBOLS.iter().map(|s| eval_symbol(s, 0.0)).collect();
+        vals.push(Complex64::new(0.0, 0.0));
+        for t in &thetas {
+            for s in PARAM_SYMBOLS {
+                vals.push(eval_symbol(s, *t));
+            }
+        }
+        let mut ok = true;
+        'outer: for a in 0..vals.len() {
+            for b in a + 1..vals.len() {
+                if (vals[a] - vals[b]).norm() < 1e-3 {
+                    ok = false;
+                    break 'outer;
+                }
+            }
+        }
+        if ok {
+            return thetas;
+        }
+    }
+}
+
+/// The symbol whose value is `v` (within 1e-9), as the JSON of an entry of Unitary.tla; a value that is
+/// no symbol's value is recorded as {"s":"?", ...} and makes the trace validation reject.
+pub fn abstract_value(v: Complex64, thetas: &[f64]) -> Value {
+    for s in CONST_SYMBOLS {
+        if (eval_symbol(s, 0.0) - v).norm() < 1e-9 {
+            return json!({"s": s, "p": 0});
+        }
+    }
+    for (k, t) in thetas.iter().enumerate() {
+        for s in PARAM_SYMBOLS {
+            if (eval_symbol(s, *t) - v).norm() < 1e-9 {
+                return json!({"s": s, "p": k + 1});
+            }
+        }
+    }
+    json!({"s": "?", "p": 0, "re": format!("{:?}", v.re), "im": format!("{:?}", v.im)})
+}
+
+pub fn abstract_matrix(m: &Mat, thetas: &[f64]) -> Vec<Value> {
+    let mut out = vec![];
+    for ((r, c), v) in m.indexed_iter() {
+        if v.norm() > 1e-12 || v.re.is_nan() || v.im.is_nan() {
+            out.push(json!([r, c, abstract_value(*v, thetas)]));
+        }
+    }
+    out
+}
+
+fn theta_strings(thetas: &[f64]) -> Vec<String> {
+    thetas.iter().map(|t| format!("{t:?}")).collect()
+}
+pub fn thetas_of(v: &Value) -> Vec<f64> {
+    v.as_array().map(|a| a.iter().map(|x| x.as_str().and_then(|s| s.parse().ok()).expect("theta")).collect()).unwrap_or_default()
+}
+
+pub fn random_placement(r: &mut impl Rng, k: usize, n: u64) -> Vec<u64> {
+    let mut all: Vec<u64> = (0..n).collect();
+    use rand::seq::SliceRandom;
+    all.shuffle(r);
+    all.truncate(k);
+    all
+}
+
+/// Judge one recorded `unitary` observation again on the real code (replay of a trace rejection).
+pub fn rejudge_gate(o: &mut Outcome, gc: &GateCase, n: u64, thetas: &[f64], tol: f64) {
+    let reference = reference_unitary(gc, n, thetas);
+    let real = real_gate_unitary(&build_direct(gc, thetas), n);
+    judge(o, "unitary", &format!("Gate::to_unitary of {} with thetas {:?} in {n} qubits", gc.text(), thetas), &real, &reference, &reference, tol);
+}
+
+fn replay_history(_ctx: &Ctx, h: &Value) -> Outcome {
+    let mut o = Outcome::ok(true);
+    let events = h.as_array().cloned().unwrap_or_default();
+    let mut n = 0;
+    let mut thetas = vec![];
+    for e in &events {
+        match e["ev"].as_str() {
+            Some("reset") => {
+                n = u(e, "n");
+                thetas = thetas_of(&e["thetas"]);
+            }
+            Some("new") | Some("dagger") | Some("controlled") | Some("forked") => {
+                let gc = GateCase::from_json(&e["post"]);
+                rejudge_gate(&mut o, &gc, n, &thetas, 1e-12);
+            }
+            _ => {}
+        }
+    }
+    o
+}
+
+pub fn drive(ctx: &Ctx) -> Summary {
+    let count = ctx.arg_u64("n", 40);
+    let max_n = ctx.arg_u64("maxn", 5);
+    let path = ctx.arg_str("out").expect("--out");
+    let mut out = std::io::BufWriter::new(std::fs::File::create(path).expect("create trace"));
+    let mut rng = util::rng(ctx.seed, 1400);
+    let mut sum = Summary::default();
+    for h in 0..count {
+        // every gate once, then random ones; registers beyond the exhaustive bound
+        let (name, k, np) = GATES[(h as usize) % GATES.len()];
+        let n = rng.gen_range((k as u64).max(4)..=max_n.max(4));
+        let qubits = random_placement(&mut rng, k, n);
+        let thetas = generic_thetas(&mut rng, np);
+        let gc = GateCase { name: name.into(), mods: vec![], qubits, np };
+        let gate = build_direct(&gc, &thetas);
+        util::emit(&mut out, &json!({"ev": "reset", "n": n, "thetas": theta_strings(&thetas)}));
+        let mut o = Outcome::ok(nontrivial_c14(&gc, n));
+        let entries = match real_gate_unitary(&gate, n) {
+            Ok(m) => abstract_matrix(&m, &thetas),
+            Err(e) => vec![json!([0, 0, {"s": "?", "p": 0, "error": e}])],
+        };
+        util::emit(&mut out, &json!({"ev": "new", "name": name, "qs": gc.qubits, "post": gc.to_json(), "entries": entries}));
+        o.count_n("events", 2);
+        sum.absorb(&json!({"gate": gc.to_json(), "n": n}), &o, true);
+    }
+    sum
 }
